@@ -268,6 +268,36 @@ let () =
         if not (obs_eqb (init cols lns) st) then bad 8 id "model" (Printf.sprintf "init differs-in=%s impl=%s" (diff_states st (init cols lns)) (show_state st));
         if not (aeqb (abs st) (a_init cols lns)) then bad 8 id "spec" (Printf.sprintf "init impl=%s" (show_state st));
         if not (wfb st) then bad 8 id "wf" "init"
+    | 9 ->
+        (* safety probe: (pre-state, operation, did the implementation panic?) against the checked-arithmetic conditions of Safe.v.
+           The pre-state / arguments may be outside the contract of C01 (huge arguments, cursor far outside, zero-sized screen):
+           that is where the Rust text does panic, and where [step_ok] has to say so. *)
+        let id = next_int () in
+        oracle_miss := false; bad_table := false;
+        let pre = rd_state () in let o = rd_op () in let panicked = next_int () <> 0 in
+        bump "safety_probes";
+        let ok = step_ok wid is_comb nfc pre o in
+        let sm = function None -> true | Some n -> int_of_n n <= 9999 in
+        let dim = function None -> true | Some n -> let i = int_of_n n in 1 <= i && i <= 2147473648 in
+        let small = (match o with
+          | OIch n | OCuu n | OCud n | OCuf n | OCub n | OCnl n | OCpl n | OCha n | OIl n | ODl n | ODch n | OEch n | OVpa n -> sm n
+          | OCup (l, c) -> sm l && sm c | OMargins (t, b) -> sm t && sm b | OResize (l, c) -> dim l && dim c | _ -> true) in
+        let in_contract = wfb pre && small && int_of_n pre.columns <= 2147473648 && int_of_n pre.lines <= 2147473648 in
+        if !oracle_miss then bump "oracle_miss_skipped"
+        else if ok && panicked then
+          bad 9 id (if in_contract then "panic" else "safe") (Printf.sprintf "the implementation panicked where Safe.step_ok holds: op=%s pre=%s" (show_op o) (show_state pre))
+        else if in_contract && not ok then
+          bad 9 id "safe" (Printf.sprintf "Safe.step_ok is false inside the contract (contradicts C01_every_operation_safe): op=%s pre=%s" (show_op o) (show_state pre))
+        else if ok then bump "safety_agree_no_panic"
+        else if panicked then bump "safety_agree_panic"
+        else (bump "safety_conservative"; bump ("safety_conservative_" ^ opname o))
+    | 10 ->
+        let id = next_int () in
+        let cols = rd_n () in let lns = rd_n () in let panicked = next_int () <> 0 in
+        bump "safety_probes";
+        let ok = init_ok cols lns in
+        if ok && panicked then bad 10 id (if int_of_n cols >= 1 && int_of_n lns >= 1 then "panic" else "safe") (Printf.sprintf "Screen::new(%s,%s) panicked where Safe.init_ok holds" (sn cols) (sn lns))
+        else if ok then bump "safety_agree_no_panic" else if panicked then bump "safety_agree_panic" else bump "safety_conservative"
     | k -> failwith (Printf.sprintf "bad record kind %d" k)
   done with End_of_file -> ());
   Hashtbl.iter (fun k v -> Printf.printf "STAT %s %d\n" k v) stats;
